@@ -46,7 +46,7 @@ SubCommandCases ==
     \cup {RawCase(<<10>> \o Enc(CMap(<< <<CU(1), CU(n)>> >>)), "cm-subcommand-byte") : n \in 0..255}
 
 PermCases == {[op |-> "permissions", tag |-> "permissions", n |-> n] : n \in 0..255}
-StatusCases == {[op |-> "status_codes", tag |-> "status-codes"]}
+StatusCases == {[op |-> "status_codes", tag |-> "status-codes"], [op |-> "defaults", tag |-> "defaults"]}
 
 \* enumerations are also emitted with exactly their spelling / number
 EncCases ==
